@@ -8,7 +8,7 @@
 //!        "access":"fwd"|"rev"|"alt"|"rand"|"twice", "seed":s}
 //! spec: {"pad":n} (a document whose serialised size is controlled by n) | {"rich":seed}
 use rand::prelude::*;
-use serde_json::{json, Map, Value};
+use serde_json::{json, Value};
 use std::collections::BTreeMap;
 use std::io::BufRead;
 use std::net::Ipv6Addr;
@@ -56,11 +56,8 @@ fn render(v: &OwnedValue) -> Value {
         OwnedValue::IpAddr(a) => json!({"t":"ip","v":format!("{:032x}", u128::from(*a))}),
         OwnedValue::Array(a) => json!({"t":"arr","v":a.iter().map(render).collect::<Vec<_>>()}),
         OwnedValue::Object(o) => {
-            let mut m = Map::new();
-            for (k, x) in o {
-                m.insert(k.clone(), render(x));
-            }
-            json!({"t":"obj","v":Value::Object(m),"n":o.len()})
+            // an object is the SEQUENCE of its entries (keys in the order added, duplicates kept)
+            json!({"t":"obj","v":o.iter().map(|(k, x)| json!([k, render(x)])).collect::<Vec<Value>>(),"n":o.len()})
         }
     }
 }
@@ -147,7 +144,8 @@ fn robject(rng: &mut StdRng, depth: u32, native: bool) -> OwnedValue {
     let mut out = vec![];
     for i in 0..n {
         let k = *["a", "b", "k.dot", "ключ", "", "k k", "z"].choose(rng).unwrap();
-        let k = if keys.iter().any(|x| x == k) { format!("{k}{i}") } else { k.to_string() };
+        // (keys in any order; now and then the same key twice)
+        let k = if keys.iter().any(|x| x == k) && rng.random_bool(0.7) { format!("{k}{i}") } else { k.to_string() };
         keys.push(k.clone());
         out.push((k, rjson(rng, depth, native)));
     }
